@@ -1473,7 +1473,26 @@ def value_eq(ex, st, a, b, depth=0):
         return z3.BoolVal(True)
     if isinstance(a, Bytes) and isinstance(b, Bytes):
         return bytes_equal(ex, st, a, b)
+    if isinstance(a, SeqV) and isinstance(b, SeqV) and a.items is not None and b.items is not None:
+        if len(a.items) != len(b.items):
+            return z3.BoolVal(False)
+        conj = []
+        for x, y in zip(a.items, b.items):
+            e = value_eq(ex, st, x, y, depth + 1)
+            if e is None:
+                return None
+            conj.append(e)
+        return z3.And(conj) if conj else z3.BoolVal(True)
     if isinstance(a, Agg) and isinstance(b, Agg):
+        # a hand-written impl PartialEq for this type in the repository defines its equality
+        if depth > 0 and a.name == b.name and a.vnames:
+            try:
+                target = ex.db.resolve('<%s as PartialEq>::eq' % a.name, st.frames[-1].fn if st.frames else None, ex)
+            except Exception:
+                target = None
+            if target is not None:
+                r = ex.call_sub_merge(st, target, [Ref(st.alloc(a), ()), Ref(st.alloc(b), ())])
+                return r.t if r is not None else None
         conj = []
         if (a.discr is None) != (b.discr is None):
             return None
@@ -1514,6 +1533,14 @@ def generic_partial_eq(ctx):
     # a hand-written `impl PartialEq` in the repository wins over structural equality
     ex = ctx.ex
     eq_callee = re.sub(r'::ne$', '::eq', ctx.callee)
+    args = list(ctx.args)
+    # `<&A as PartialEq<&B>>::eq` forwards to `<A as PartialEq<B>>::eq` on the pointees
+    mm = re.match(r'^<((?:&(?:mut )?)+)(.*?) as PartialEq(?:<((?:&(?:mut )?)*)(.*)>)?>::(eq|ne)$', eq_callee)
+    if mm and mm.group(1):
+        n = mm.group(1).count('&')
+        for _ in range(n):
+            args = [ex.load(ctx.st, a.cell, a.path) if isinstance(a, Ref) and isinstance(ex.load(ctx.st, a.cell, a.path), Ref) else a for a in args]
+        eq_callee = '<%s as PartialEq>::eq' % mm.group(2)
     try:
         target = ex.db.resolve(eq_callee, ctx.fr.fn, ex)
     except Exception:
@@ -1521,8 +1548,8 @@ def generic_partial_eq(ctx):
     if target is not None:
         if ctx.callee.endswith('::eq'):
             from engine import Push
-            return Push(target, ctx.args)
-        r = ex.call_sub_merge(ctx.st, target, ctx.args)
+            return Push(target, args)
+        r = ex.call_sub_merge(ctx.st, target, args)
         if r is None:
             return NotImplemented
         return Bool(simp(z3.Not(r.t)))
